@@ -132,6 +132,13 @@ def judge(ctx, name, pts, shift, l, rep):
         ctx.count("beyond_the_sufficient_density_bound_but_window_exact")
     if wall < 1e-12:          # circumcentres of well-shaped triangles are accurate to ~1e-15; closer to the wall than this the cell membership is a matter of rounding
         ctx.count("precondition_excluded_vertex_on_cell_wall"); return None
+    if len(verts) > 1:
+        # genericity margin: two Voronoi vertices closer than 1e-9 come from four seeds that are co-circular within rounding - which of the two triangulations
+        # qhull reports (or whether it merges them) is then a matter of its own tolerances, and the statement excludes co-circular seeds
+        from scipy.spatial import cKDTree
+        dd, _ = cKDTree(verts).query(verts, k=2)
+        if float(dd[:, 1].min()) < 1e-9:
+            ctx.count("precondition_excluded_cocircular_within_1e-9"); return None
     if l.n_vertices != len(verts):
         rep(f"{l.n_vertices} vertices, the periodic Voronoi diagram has {len(verts)}"); return False
     d = np.linalg.norm(l.vertices.positions[:, None] - verts[None], axis=-1); m = d.argmin(1)
